@@ -65,7 +65,11 @@ class C16(Check):
             p = rng.choice(self._profiles)
             nm = rng.choice([k for k, _ in self._std] + [k for k, _ in p['vendor']] + ['no_such_op'])
             out.append({'kind': 'resolve', 'profile': p['name'], 'name': nm})
-            out.append({'kind': 'subs', 'pref': rng.choice([None, 'netconf', 'xmlagent', 'zz', 'ünï'])})
+            # preferred subsystem names: none, a built-in candidate, a new one, and names that differ from a built-in one only by
+            # white space or case (they are DIFFERENT names for an SSH server); on every profile that documents the preference
+            prefp = [x['name'] for x in self._profiles if x.get('doc_pref')] or ['nexus']
+            out.append({'kind': 'subs', 'profile': rng.choice(prefp),
+                        'pref': rng.choice([None, 'netconf', 'xmlagent', 'zz', 'ünï', ' netconf', 'netconf ', 'xmlagent\n', 'Netconf', '\tnetconf', 'net conf'])})
         return out
 
     def search(self, tier, rng, broken):
@@ -112,7 +116,7 @@ class C16(Check):
                 return {'cls': a.args[0].__module__ + '.' + a.args[0].__name__}
             return {'cls': None}
         if k == 'subs':
-            dp = {'name': 'nexus'}
+            dp = {'name': case.get('profile', 'nexus')}
             if case['pref'] is not None:
                 dp['ssh_subsystem_name'] = case['pref']
             return {'subs': list(manager.make_device_handler(dp).get_ssh_subsystem_names())}
@@ -176,7 +180,8 @@ class C16(Check):
             pairs = lambda kv: hlist('%s=%s' % (hexs(a), hexs(b)) for a, b in kv)
             return ['iso resolve %s %s %s' % (pairs(p['vendor']), pairs(self._std), hexs(case['name']))]
         if k == 'subs':
-            return ['iso subs %s %s' % (hlist(hexs(x) for x in ['netconf', 'xmlagent']), '-' if case['pref'] is None else hexs(case['pref']))]
+            base = next((x['subs'] for x in self._profiles if x['name'] == case.get('profile', 'nexus')), ['netconf', 'xmlagent'])
+            return ['iso subs %s %s' % (hlist(hexs(x) for x in base), '-' if case['pref'] is None else hexs(case['pref']))]
         return []
 
     def model_obs(self, case, outs):
@@ -189,6 +194,14 @@ class C16(Check):
 
     def oracle(self, case, io):
         k = case['kind']
+        if k == 'subs':
+            lst = io['subs']
+            n = case.get('profile', 'nexus')
+            if len(lst) != len(set(lst)):
+                return ('C16:duplicate-subsystems@' + n, 'preferred name %r: subsystem candidates %s contain a duplicate' % (case['pref'], lst))
+            if case['pref'] is not None and lst[:1] != [case['pref']]:
+                return ('C16:subsystem-preference-ignored@' + n, 'preferred name %r is not the first candidate: %s' % (case['pref'], lst))
+            return None
         if k == 'profile':
             r, o = io['row'], io['obs']
             n = r['name']
